@@ -31,9 +31,12 @@ def dispatch (op : String) (payload : Json) : R Json :=
   | "diag_render" => C15.handleRender payload
   | "diag_scoped" => C15.handleScoped payload
   | "diag_scopes" => C15.handleScopes payload
+  | "diag_resolve" => C15.handleResolve payload
+  | "diag_walk" => C15.handleWalk payload
   | "c16_tables" => C16.handleTables payload
   | "c16_main" => C16.handleMain payload
   | "c16_out" => C16.handleOut payload
+  | "c16_cache" => C16.handleCache payload
   | "resolve_import" => C06.handle payload
   | "import_symbols" => C06.handleSymbols payload
   | "import_spec" => C06.handleSpec payload
@@ -54,6 +57,7 @@ def dispatch (op : String) (payload : Json) : R Json :=
   | "pipeline" => Pipeline.handle payload
   | "cross_resolve" => C08.handle payload
   | "results_project" => C14.handle payload
+  | "results_located" => C14.handleLocated payload
   | "pipeline2" => Pipeline2.handle payload
   | "project" => Project.handle payload
   | "star_root" => C01.handleRoot payload
